@@ -46,6 +46,13 @@ def get_obj(desc):
     elif desc[0] == "gen":
         _, p, a, b, gx, gy, n, ent = desc
         o = make_generator(p, a, b, (gx, gy), n, ent)
+    elif desc[0] == "accgen":
+        # a Generator of the ACCELERATED class of a shipped curve (type(secp256k1_generator) ...) over the shipped
+        # parameters but with ANOTHER basis point: a second generator of the same group (seed C02-d1: the native
+        # fixed-base multiplication used the named group's own base point instead of the instance's)
+        _, base, hx, hy, ent = desc
+        g0 = get_obj(base)
+        o = type(g0)(g0._p, g0._a, g0._b, (hx, hy), g0._order, entropy_f=entropy_f_for(ent))
     else:
         raise KeyError(desc)
     _cache[key] = o
